@@ -311,12 +311,13 @@ META = {
     'technique': 'static analysis: must-pass/unconditional-store analysis of the container refresh against a read set extracted '
                  'from blimpy\'s own source (MUSTPASS), reader∘writer composition of header terms (AGREE), symbolic flip pairing, '
                  'affine-sequence form and kind of the helper axes (FORMULA/EXACTCOUNT), call-trace comparison of the save path',
-    'level': 'Decides from the source that every container attribute blimpy reads when writing (f_start, f_stop, selection_shape, '
-             't_start, t_stop, ...) is refreshed from the frame on every path of _update_waterfall (also for inherited Waterfalls), '
-             'that loading what the save path writes returns the same df, dt, orientation, fch1, shape and start time, that data is '
-             'reversed on the frequency axis iff descending on both paths, that the helper axes have exactly the file\'s integer '
-             'channel/integration counts, and the order of the save path. float32 equality and what blimpy/h5py actually write are '
-             'not decided.',
+    'level': 'Decides from the source that every container attribute blimpy reads when writing (f_start, f_stop, '
+             'selection_shape, t_start, t_stop, ...) is refreshed from the frame on every path of _update_waterfall (also for '
+             'inherited Waterfalls), that loading what the save path writes returns the same df, dt, orientation, fch1, shape '
+             'and start time, that data is reversed on the frequency axis iff descending on both paths, that the helper axes '
+             "have exactly the file's integer channel/integration counts, and the order of the save path. float32 equality and"
+             " what blimpy/h5py actually write are not decided. Also decided: the saved source name is the frame's own on "
+             'every update (not only when the Waterfall is created).',
     'note': 'blimpy is parsed (not imported) to derive its read set; astropy Time(x, unix).mjd / Time(x, mjd).unix treated as an '
             'inverse pair; real arithmetic.',
 }
